@@ -37,12 +37,15 @@ C = {
          "existing label is painted only in its own frame; one frame per stroke."),
  "C08": ("which node is recomputed, from which frame, with which spacing: every enabled regionprops value equals "
          "RP(current mask bits of the node in its own frame, spacing) after every edit, undo, redo and after bulk enable",
-         "regionprops_extended is a contract stub (uninterpreted functions): skimage numerics (area = count x voxel "
-         "size, centroid, marching cubes, eig) are OUT OF REACH and not claimed. Scale symbolic (None or positive reals)."),
+         "regionprops_extended is a contract stub (uninterpreted functions) in the history runs; the real function is "
+         "run on every realised 2x3 / 2x2x2 label frame (labels 0..2, four spacings) for area = count x voxel size, "
+         "centroid = scaled mean and independence of other labels; the shape features' numerics (marching cubes, eig) "
+         "are OUT OF REACH and not claimed. Scale symbolic (None or positive reals)."),
  "C09": ("every edge's stored IoU equals IOU(|A&B|,|A|B|) of its endpoints' masks, each in its own frame (also skip "
          "edges), after every edit/undo/redo (incremental) and after enable_features(['iou']) at an arbitrary state (bulk)",
-         "_compute_ious is a contract stub with uninterpreted IOU(inter, union); the kernel itself (np.unique(axis=1)) "
-         "is covered by the conformance self-test only. Bound: 2-3 slots, 3x1x2 quick; 3-4 slots thorough."),
+         "_compute_ious is a contract stub with uninterpreted IOU(inter, union) in the history runs; the real kernel "
+         "(np.unique(axis=1)) is run on every realised pair of 1x3 / 2x2 label frames (bounded-exhaustive, by solver "
+         "forks) and compared with the definition. Bound: 2-3 slots, 3x1x2 quick; 3-4 slots thorough."),
  "C10": ("enable/disable with every key list (incl. unknown key -> KeyError, nothing changed) from every activation "
          "table; registry = static + active; disabled feature untouched by edits; values after enable-with-recompute = "
          "reference; managed keys and time refused by attribute updates whatever the activation",
@@ -88,8 +91,9 @@ C = {
          "thorough; helpers L=3 / 4."),
  "C18": ("real nodes_from_points_list / nodes_from_segmentation / add_cand_edges / add_iou: one node per detection with "
          "time/position(/area), edge iff next frame and distance <= max (real arithmetic), IoU = overlap; frames without "
-         "detections, empty inputs", "KD-tree, skimage regionprops and _compute_ious are contract stubs; boundary/rounding "
-         "behaviour of the real KD-tree out of reach. Bound: 3-4 points in 4 frames; 3x2 / 3x3 cells."),
+         "detections, empty inputs", "KD-tree, skimage regionprops and _compute_ious are contract stubs in the graph runs "
+         "(the real _compute_ious copy is run on every realised pair of 1x3 / 2x2 label frames); boundary/rounding "
+         "behaviour of the real KD-tree out of reach. Bound: 3-5 points in 4 frames, 9 in a fixed layout; 3x2 / 3x3 cells."),
  "C19": ("real ensure_unique_labels (incl. multiseg) and relabel_segmentation_with_track_id on symbolic arrays: labels "
          "unique across frames, per-frame partition kept, same label iff same unbranched segment, unlisted removed",
          "Labels are mathematical integers >= 0 (uint64 wrap-around outside). Bound: 3x2 / 4x3 cells, 2x2x2 multiseg, "
